@@ -163,6 +163,13 @@ func (f *Fetcher) Run(ctx context.Context, fn func(EntryBatch)) error {
 	}
 	wg.Wait()
 
+	// Stop the range generator and wait until it has exited (it closes ranges on
+	// its way out), so that it no longer touches f.sth / f.opts.EndIndex once Run
+	// has returned. Without this a cancelled continuous Run races with updateSTH.
+	cancel()
+	for range ranges {
+	}
+
 	klog.V(1).Infof("%s: Fetcher terminated", f.uri)
 	return nil
 }
